@@ -273,7 +273,14 @@ fn cmd_sweep(args: &[String]) -> i32 {
     if !flag(args, "--no-shapes") && prop != "C17" && arg(args, "--bounds").is_none()
         && !reports.iter().any(|r| r.violations.iter().any(|v| !v.known) || r.cap_hit.is_some())
     {
-        let max_nodes = if tier == "quick" { 8 } else { 9 };
+        // properties whose state judges are expensive per state take smaller shapes
+        let heavy = matches!(prop.as_str(), "C02" | "C10" | "C13" | "C16");
+        let max_nodes = match (heavy, tier == "quick") {
+            (true, true) => 6,
+            (true, false) => 7,
+            (false, true) => 8,
+            (false, false) => 9,
+        };
         let cfg = RunCfg {
             n: max_nodes + 1, a: 64,
             profile: pl.profile,
